@@ -285,6 +285,8 @@ class MolGraph:
         """
         if atom1 not in self.atoms or atom2 not in self.atoms:
             raise ValueError("Atoms not in Graph")
+        if atom1 == atom2:
+            raise ValueError("An atom can not be bonded to itself")
         bond = Bond({atom1, atom2})
         self._neighbors[atom1].add(atom2)
         self._neighbors[atom2].add(atom1)
